@@ -286,6 +286,26 @@ def run(ctx):
             if not mp or len(t["args"]) < mp[0]:
                 continue
             info.setdefault(b.path, []).append((b, bi, t, tgt, map_origin(b, defs, t["args"][mp[0] - 1])))
+    # a closure that captures the map (`terms.into_iter().map(|t| t.recreate_variables(&mut vars))`): creating it hands
+    # the map over just as a call would
+    cap_idx = {}
+    for c in prog.lib_bodies():
+        if c.kind == "Closure":
+            for k, cap in enumerate(c.mir.get("captured") or []):
+                if MAPTY in (cap.get("place", {}).get("ty") or ""):
+                    cap_idx[c.path] = k
+    for b in prog.lib_bodies():
+        defs = None
+        for bi, blk in enumerate(b.blocks):
+            for st in blk["stmts"]:
+                if st["k"] == "assign" and st["rv"].get("ak") == "closure" and st["rv"]["closure"] in cap_idx:
+                    tgt = next((x for x in prog.lib_bodies() if x.path == st["rv"]["closure"]), None)
+                    k = cap_idx[st["rv"]["closure"]]
+                    if tgt is None or k >= len(st["rv"]["ops"]):
+                        continue
+                    if defs is None:
+                        defs = single_defs(b)
+                    info.setdefault(b.path, []).append((b, bi, {"line": st["line"]}, tgt, map_origin(b, defs, st["rv"]["ops"][k])))
     changed = True
     while changed:
         changed = False
